@@ -28,6 +28,7 @@ mod c11p;
 mod c09n;
 mod c18_orders;
 mod c17_deg;
+mod c16_manifest;
 mod rng;
 
 use std::collections::HashMap;
